@@ -732,6 +732,32 @@ func checkMemClock(c *Ctx) {
 										okVal = true
 									}
 								}
+								// or the result of a same-package parsing helper: installed on the helper's success edge, and
+								// every success return of the helper lies behind a successful scan / parse
+								if hc, isHC := o.Val.(*ssa.Call); isHC && o.Kind == "call" && o.Idx == 0 {
+									h := hc.Common().StaticCallee()
+									if h != nil && len(h.Blocks) > 0 && fnPkgPath(h) == fnPkgPath(fn) && dominatedBySuccess(hc, st) {
+										for _, sc := range CallsNamed(h, "fmt.Sscanf", "fmt.Sscan", "strconv.ParseUint") {
+											scv, isSC := sc.Instr.(*ssa.Call)
+											if !isSC {
+												continue
+											}
+											all, nRet := true, 0
+											for _, r := range Returns(h) {
+												if returnKind(r) == RetError {
+													continue
+												}
+												nRet++
+												if !dominatedBySuccess(scv, r) {
+													all = false
+												}
+											}
+											if all && nRet > 0 {
+												okVal = true
+											}
+										}
+									}
+								}
 							}
 						} else {
 							whyVal = "read() installs " + n + "(…) on some path: a clock file without a readable value restarts the clock instead of failing the load (the repository would then rebuild it from the stored entities), so the clock can go backward across a restart"
